@@ -236,6 +236,36 @@ impl Canon for Shadow {
     }
 }
 
+/// Fields named with raw identifiers, with and without `#[zlink(rename)]`.
+#[derive(Debug, ReplyError)]
+#[zlink(interface = "org.example.Raw", crate = "zlink_core")]
+enum Raw<'a> {
+    Typed {
+        r#type: String,
+        count: u32,
+    },
+    Matched {
+        #[zlink(rename = "match")]
+        r#match: i32,
+        r#ref: Option<&'a str>,
+    },
+    Loop,
+    Renamed {
+        #[zlink(rename = "in")]
+        r#in: bool,
+    },
+}
+impl Canon for Raw<'_> {
+    fn canon(&self) -> Value {
+        match self {
+            Raw::Typed { r#type, count } => var(0, vec![r#type.canon(), count.canon()]),
+            Raw::Matched { r#match, r#ref } => var(1, vec![r#match.canon(), r#ref.canon()]),
+            Raw::Loop => var(2, vec![]),
+            Raw::Renamed { r#in } => var(3, vec![r#in.canon()]),
+        }
+    }
+}
+
 impl Canon for varlink_service::Error {
     fn canon(&self) -> Value {
         use varlink_service::Error as E;
@@ -302,6 +332,21 @@ struct MethS {
     parameters: Option<Strict>,
 }
 canon_struct!(MethS; method, parameters);
+
+/// A method type whose OWN members are near misses of the flag names.
+#[derive(Debug, Serialize, Deserialize)]
+struct MethN {
+    method: String,
+    #[serde(rename = "More")]
+    more_cap: Option<bool>,
+    #[serde(rename = "ONEWAY")]
+    oneway_up: Option<String>,
+    #[serde(rename = "upgrade_")]
+    upgrade_tail: Option<i64>,
+    #[serde(rename = "mor")]
+    mor: Option<bool>,
+}
+canon_struct!(MethN; method, more_cap, oneway_up, upgrade_tail, mor);
 
 impl Canon for varlink_service::Method<'_> {
     fn canon(&self) -> Value {
@@ -403,7 +448,15 @@ macro_rules! reply_case {
         out.insert(
             "d_err".into(),
             match serde_json::from_str::<$E>(frame) {
-                Ok(e) => json!({"v": e.canon(), "enc": serde_json::to_string(&e).unwrap()}),
+                Ok(e) => {
+                    // what send_error puts on the wire for the decoded error
+                    let (sock, sh) = SSocket::new(VecDeque::new());
+                    let mut conn = Connection::new(sock);
+                    let sent = drive(conn.send_error(&e), &sh);
+                    let wire: Vec<u8> = sh.borrow().writes.concat();
+                    json!({"v": e.canon(), "enc": serde_json::to_string(&e).unwrap(),
+                           "wire": match sent { Some(Ok(())) => Some(String::from_utf8_lossy(&wire).into_owned()), _ => None }})
+                }
                 Err(_) => Value::Null,
             },
         );
@@ -427,6 +480,7 @@ macro_rules! reply_e {
             "opts" => reply_case!($frame, $P, Opts),
             "empty" => reply_case!($frame, $P, Empty),
             "shadow" => reply_case!($frame, $P, Shadow),
+            "raw" => reply_case!($frame, $P, Raw),
             x => panic!("unknown error type {x}"),
         }
     };
@@ -529,6 +583,7 @@ fn run_call(case: &Value) -> Value {
         "meth" => call_owned!(frame, Meth),
         "methb" => call_case!(frame, MethB),
         "meths" => call_owned!(frame, MethS),
+        "methn" => call_owned!(frame, MethN),
         "value" => call_owned!(frame, Value),
         "vsmethod" => call_case!(frame, varlink_service::Method),
         x => panic!("unknown method type {x}"),
@@ -625,6 +680,7 @@ fn run_build_call(case: &Value) -> Value {
         "meth" => build_call_case!(case, Meth),
         "methb" => build_call_case!(case, MethB),
         "meths" => build_call_case!(case, MethS),
+        "methn" => build_call_case!(case, MethN),
         "value" => build_call_case!(case, Value),
         "vsmethod" => build_call_case!(case, varlink_service::Method),
         x => panic!("unknown method type {x}"),
